@@ -47,6 +47,9 @@ func generate(w *mon.W) {
 		}
 	}
 	corpus = append(corpus, gen.Seeds()...)
+	// calls of dialect functions with arithmetic, dates and durations as arguments
+	corpus = append(corpus, "T | where ts > datetime(2024 - skew * 60) and d == date(1999 - a)", "T | where ts > datetime(2024-01-15) | extend t = ago(5 - m), u = bin(ts, 3600) | count",
+		"T | extend a = case(lvl == 1, 'low', hidden == 2, 'high'), b = substring(name, 0), c = not (x) | project a, b, c")
 	for _, kind := range gen.WideKinds {
 		for _, n := range []int{1, 2, 3, 12, 13, 16, 17, 24, 25, 26, 33} {
 			// wide constructs join the mutation corpus; the biggest are only checked as they are
